@@ -20,7 +20,7 @@ import framework
 
 VO = ["theories/Gen/LeafTls.vo", "theories/Small/TlsModel.vo", "theories/Small/TlsProofs.vo", "theories/Small/TlsLink.vo",
       "theories/Small/ListPtrModel.vo", "theories/Small/ListPtrBase.vo", "theories/Small/ListPtrOps.vo",
-      "theories/Small/ListPtrOps2.vo", "theories/Small/ListPtrOps3.vo", "theories/Small/ListPtrTop.vo"]
+      "theories/Small/ListPtrOps2.vo", "theories/Small/ListPtrOps3.vo", "theories/Small/ListPtrTop.vo", "theories/Small/ListPtrHist.vo"]
 
 TRUSTED = [
     "iv_tls.c is transcribed by hand into Small/TlsModel.v (registration list as a Coq list, numbers in Z); the offset-advance "
